@@ -38,12 +38,13 @@ Abstractions:
               `update_calculated_tags`), and Restart zeroes Process Time/Run Time like Start;
 * `prevFix` — `set_run_id`/`clear_run_id` clear `_prev_state`.
 Further switches (all default off = code as it was when the model was first written; /repo HEAD has the first six
-and `cancel2`):
+`cancel2` and `scopeReset`):
 * `startWrite`, `pauseGate`, `errSafe` — the three C08 repairs (fixes/C08-*.diff);
 * `pauseOnce` — a Pause body that runs while already paused keeps the snapshot of the pause onset
                 (fixes/C09-double-pause-capture.diff);
 * `idleErr`  — `set_error_state` with no run active only reports the error, System State stays Stopped
                 (fixes/C06-error-while-idle-stays-stopped.diff);
+* `scopeReset` — Start and Restart (`emit_on_start`) clear the Scope Time timers and stack (/repo 29706dcf);
 * `cancel2`  — Stop and Restart cancel all commands once more in their second phase, so that a user UOD
                 command that started inside the stop window does not survive (/repo 90a68ba6,
                 fixes/C10-dispose-instances-on-stop.diff).
@@ -88,6 +89,9 @@ structure Cfg where
   /-- /repo 90a68ba6 (fixes/C10-dispose-instances-on-stop.diff): Stop and Restart call
       `cancel_all_commands` a second time, in the phase after their first `yield` -/
   cancel2 : Bool := false
+  /-- /repo 29706dcf: `ScopeTimeTag.on_start` clears its timers and its stack (a run starts with no open scope,
+      as `BlockTimeTag.on_start` clears its stack) -/
+  scopeReset : Bool := false
 deriving Repr
 
 /-- Events of the interpreter that the clock tags listen to. -/
@@ -206,7 +210,8 @@ def startRun (cfg : Cfg) (c : Core) : Core :=
   { c with started := true, paused := false, holding := false,
            runId := some c.nextRunId, nextRunId := c.nextRunId + 1,
            sys := .running, methodErr := false, rt := 0, pt := 0,
-           blocks := [], prev := c.clearPrev cfg, restartGap := false }
+           blocks := [], prev := c.clearPrev cfg, restartGap := false,
+           scopeT := if cfg.scopeReset then [] else c.scopeT, scopeS := if cfg.scopeReset then [] else c.scopeS }
 
 def pause (cfg : Cfg) (c : Core) : Core :=
   if cfg.pauseOnce && c.paused then { c with sys := .paused, clkPaused := true }
@@ -257,7 +262,8 @@ def restartFinish (cfg : Cfg) (c : Core) : Core :=
   { c with started := true, paused := false, holding := false,
            runId := some c.nextRunId, nextRunId := c.nextRunId + 1,
            rt := if cfg.clocks then 0 else c.rt, pt := if cfg.clocks then 0 else c.pt,
-           blocks := [], sys := .running, prev := c.clearPrev cfg, restartGap := false }
+           blocks := [], sys := .running, prev := c.clearPrev cfg, restartGap := false,
+           scopeT := if cfg.scopeReset then [] else c.scopeT, scopeS := if cfg.scopeReset then [] else c.scopeS }
 
 /-- `update_calculated_tags` (only called while started) incl. `on_tick` of the two clock tags -/
 def clock (cfg : Cfg) (inc : Int) (c : Core) : Core :=
@@ -701,7 +707,7 @@ def repaired (safes : List (Option Int)) : Cfg := { safes, guard := true, clocks
 /-- … and with the three C08 repairs and the second cancel of Stop/Restart as well (= /repo 90a68ba6) -/
 def repaired8 (safes : List (Option Int)) : Cfg :=
   { safes, guard := true, clocks := true, prevFix := true, startWrite := true, pauseGate := true, errSafe := true,
-    cancel2 := true }
+    cancel2 := true, scopeReset := true }
 /-- … and with the double-Pause and error-while-idle repairs -/
 def repaired10 (safes : List (Option Int)) : Cfg :=
   { repaired8 safes with pauseOnce := true, idleErr := true }
